@@ -55,7 +55,15 @@ pub enum Op {
     DrainPair { pair: u8 },
     /// plain transfer of an asset to the collector (0 uwhale, 1 uusdc, 2 tokx, 3 uatom)
     Donate { which: u8, amount: Uint128 },
-    NewEpoch { late_ns: u64, caller: u8 },
+    /// `inside_loan = Some((vault, k))`: the NewEpoch message is sent from inside a flash loan taken on
+    /// that vault through the vault router (payload: NewEpoch, then the repayment), i.e. while the
+    /// vault's loan is outstanding
+    NewEpoch {
+        late_ns: u64,
+        caller: u8,
+        #[serde(default)]
+        inside_loan: Option<(u8, u16)>,
+    },
     ForwardFeesBy { caller: u8 },
     Claim { user: u8 },
     /// the distributor's owner raises the grace period by 1 or 2 (an already expired epoch can come
@@ -96,7 +104,8 @@ fn op() -> BoxedStrategy<Op> {
         1 => (0u8..3).prop_map(|pair| Op::RemovePair { pair }),
         1 => (0u8..3).prop_map(|pair| Op::DrainPair { pair }),
         2 => (0u8..4, prop_oneof![2 => gen::amount(1, 1u128 << 60), 2 => gen::amount(1u128 << 60, 1u128 << 100)]).prop_map(|(which, a)| Op::Donate { which, amount: Uint128::new(a) }),
-        7 => (prop_oneof![3 => Just(0u64), 1 => 0u64..DAY_NS], 0u8..3).prop_map(|(late_ns, caller)| Op::NewEpoch { late_ns, caller }),
+        7 => (prop_oneof![3 => Just(0u64), 1 => 0u64..DAY_NS], 0u8..3, prop_oneof![5 => Just(None), 1 => (0u8..3, 1u16..40000).prop_map(Some)])
+            .prop_map(|(late_ns, caller, inside_loan)| Op::NewEpoch { late_ns, caller, inside_loan }),
         1 => (0u8..5).prop_map(|caller| Op::ForwardFeesBy { caller }),
         1 => (0u8..3).prop_map(|user| Op::Claim { user }),
         1 => (1u8..3).prop_map(|by| Op::IncreaseGrace { by }),
@@ -644,7 +653,7 @@ impl Check for FeePipeline {
                     ensure!(s2 == snap, "step {step}: rejected ForwardFees changed the world: {}", snap.diff(&s2));
                     rec.class("forward_fees_unauthorised_rejected");
                 }
-                Op::NewEpoch { late_ns, caller } => {
+                Op::NewEpoch { late_ns, caller, inside_loan } => {
                     let cur = h.current_epoch().map_err(Fail::new)?;
                     let now = h.w.now().nanos();
                     let target = cur.start_time.nanos() + DAY_NS + late_ns;
@@ -673,7 +682,28 @@ impl Check for FeePipeline {
                         0
                     };
                     let snap = h.w.snapshot();
-                    let r = h.new_epoch(&who);
+                    // protocol fee the enclosing loan (if any) leaves pending in its vault after the epoch's collection
+                    let mut loan_fee = [0u128; 3];
+                    let r = match inside_loan {
+                        None => h.new_epoch(&who),
+                        Some((vault, k)) => {
+                            rec.class("new_epoch_attempt_inside_a_flash_loan");
+                            let i = (*vault % 3) as usize;
+                            let info = h.assets[h.vault_assets[i]].clone();
+                            let bal = h.w.bal(&info, &h.vaults[i]);
+                            let amt = gen::frac(*k, bal).max(1);
+                            loan_fee[i] = to_u128(u(amt) * u(c.vault_fees[0].u128()) / u(1_000_000_000_000_000_000)).unwrap();
+                            let epoch_msg: CosmosMsg = WasmMsg::Execute { contract_addr: h.dist.to_string(), msg: to_json_binary(&fd::ExecuteMsg::NewEpoch {}).unwrap(), funds: vec![] }.into();
+                            let pay: CosmosMsg = WasmMsg::Execute {
+                                contract_addr: h.purse.to_string(),
+                                msg: to_json_binary(&PurseMsg::Pay { asset: info.clone(), amount: Uint128::new(amt / 2 + 10), to: h.vrouter.to_string() }).unwrap(),
+                                funds: vec![],
+                            }
+                            .into();
+                            let vr = h.vrouter.clone();
+                            h.w.exec(&who, &vr, &vault_router::ExecuteMsg::FlashLoan { assets: vec![asset(&info, amt)], msgs: vec![epoch_msg, pay] }, &[])
+                        }
+                    };
                     let resp = match r {
                         Err(_) => {
                             rec.class("new_epoch_rejected");
@@ -717,7 +747,15 @@ impl Check for FeePipeline {
                     }
                     for i in 0..3 {
                         let a = h.vault_pending(i);
-                        ensure!(a == 0, "step {step}: vault {i} still owes {a} after NewEpoch (was {})", pend_vaults[i]);
+                        ensure!(
+                            a == loan_fee[i],
+                            "step {step}: vault {i} owes {a} after NewEpoch (was {}; the enclosing loan's own protocol fee is {})",
+                            pend_vaults[i],
+                            loan_fee[i]
+                        );
+                        if inside_loan.is_some() && pend_vaults[i] > 0 {
+                            rec.class("vault_fees_collected_by_an_epoch_created_inside_a_loan");
+                        }
                         collected[h.vault_assets[i]] += pend_vaults[i];
                         from_vaults += pend_vaults[i];
                     }
